@@ -262,7 +262,7 @@ def csrf_walks(edges: list[dict[str, Any]], da, rng: random.Random, nwalks: int,
     out.coverage['csrf_presentations'] = kinds
     out.coverage['csrf_hook_seen'] = rp.hook
     for k, v in kinds.items():
-        if v == 0:
+        if v == 0 and k != 'accepted':       # what is accepted depends on the code under test: judged by the clauses, not here
             raise MachineryFailure(f'vacuity guard: no CSRF walk exercised "{k}"')
     return lines
 
